@@ -191,3 +191,9 @@ Definition attr_get_class (s : schema) (guarded : bool) (cur : nat) (seed : bool
 Definition collection_item_class (cur real : nat) : nat := cur.
 (* Entity.__setstate__-side: a reference restored from a pickle is an object of the declared class marked as loaded; nothing refines it *)
 Definition unpickled_ref_class (cur real : nat) : nat := cur.
+
+(* ------------------------------------------------------------------ a query over e whose condition reads an attribute declared by class c (e itself or one of
+   its subclasses: ObjectMixin.getattr also looks in entity._subclass_adict_).  All classes of a tree share one table; the column of an
+   attribute of c is NULL in rows of classes that do not have it, and a comparison with NULL selects nothing. *)
+Definition sub_attr_selected (s : schema) (e c k : nat) (cond : bool) : bool :=
+  selected s e (discr_of s k) && issub s k c && cond.
